@@ -494,6 +494,15 @@ func rewriteFile(p *packages.Package, f *ast.File, rw *fileRW) {
 					if pk, ok := sel.X.(*ast.Ident); ok {
 						if pn, ok := info.Uses[pk].(*types.PkgName); ok && pn.Imported().Path() == "sync/atomic" && strings.HasPrefix(sel.Sel.Name, "Add") {
 							rw.replace(sel.Sel.Pos(), sel.Sel.End(), "Blind"+sel.Sel.Name)
+							break
+						}
+					}
+					// the method form on the typed atomics: x.Add(d) with the result discarded
+					if sel.Sel.Name == "Add" {
+						if s := info.Selections[sel]; s != nil && s.Kind() == types.MethodVal {
+							if fn, ok := s.Obj().(*types.Func); ok && fn.Pkg() != nil && fn.Pkg().Path() == "sync/atomic" {
+								rw.replace(sel.Sel.Pos(), sel.Sel.End(), "BlindAdd")
+							}
 						}
 					}
 				}
